@@ -19,7 +19,7 @@
                               nested calls supply the parameters without default, a hand-wired chain
                               visits every child once in an order compatible with the data)
      rets_distinct d          no channel is returned twice, at any depth
-     macro_level o            o is `m.inputs[k] = x` or `m.run()` (path = [])
+     macro_level o            o is `m.inputs[k] = x`, `m.run()` or a refused `m.inputs[k] = <non-int>` (path = [])
      free_op s o              o is NOT applied on the receiving side of a value link: not an assignment to a
                               child input that is the value_receiver of a macro input, nor to a macro output
                               a child output is linked into (free_in / free_out, any depth)
@@ -147,6 +147,14 @@ Theorem C09_links_complete_partial : forall d l s v,
   wfd d = true -> rets_distinct d = true -> build d l = Some (s, v) -> out_links_complete d s.
 Proof. exact links_complete_thm. Qed.
 Print Assumptions C09_links_complete_partial.
+
+(* a macro-level (or child-level) assignment that a channel down the chain of value links refuses --
+   the setter checks its own hint, forwards, and only then stores -- leaves EVERY channel as it was, hence
+   every linked pair equal; it is refused exactly when the channel or one it forwards to is hinted int *)
+Theorem C09_refused_update_unchanged : forall s v p k v' n,
+  apply_op s v (OSetBad p k) = Some (v', n) -> v' = v /\ refuses_at s p k = true.
+Proof. exact refused_update_unchanged. Qed.
+Print Assumptions C09_refused_update_unchanged.
 
 (* REFUTED (S14, child input): `m.c.inputs.a = 7` is not mirrored to the macro input it is linked from *)
 
